@@ -437,6 +437,51 @@ impl StoreRun {
     }
 }
 
+/// Open an existing file store (raw key of the harness).
+pub fn open_existing(path: &str, params: &str) -> Result<AnyBackend, askar_storage::Error> {
+    let uri = format!("sqlite://{}{}{}", path, if params.is_empty() { "" } else { "?" }, params);
+    block_on(async { uri.as_str().open_backend(Some(StoreKeyMethod::RawKey), PassKey::from(RAW_KEY), None).await })
+}
+
+/// Run ops sequentially on a backend, calling `ack` after each completed call (used by the kill campaign's child).
+pub fn run_ops_with_ack(backend: AnyBackend, path: Option<String>, ops: &[Value], ack: &mut dyn FnMut(usize, &Value)) {
+    let mut run = StoreRun { backend, path, sessions: HashMap::new() };
+    let mut pages = vec![];
+    block_on(async {
+        for (i, op) in ops.iter().enumerate() {
+            let got = run.step(op, &mut pages).await;
+            ack(i, &got);
+        }
+        run.sessions.clear(); // sessions must be dropped inside the runtime
+    });
+}
+
+/// The reference map's ordered dump after each prefix of `ops` (index k = after k calls), for one profile.
+pub fn reference_prefix_dumps(profile: &str, ops: &[Value], page: usize) -> Vec<Value> {
+    let mut o = Oracle::new(profile, now_ms(), page);
+    let dump_op = json!({"op": "scan", "profile": profile, "k": null, "c": null, "f": null, "off": null, "lim": null, "ord": true, "desc": false});
+    let flat = |v: Option<Value>| -> Value {
+        let v = v.unwrap_or(Value::Null);
+        Value::Array(v["pages"].as_array().cloned().unwrap_or_default().into_iter().flat_map(|p| p.as_array().cloned().unwrap_or_default()).collect())
+    };
+    let mut out = vec![flat(o.step(&dump_op))];
+    for op in ops {
+        o.step(op);
+        out.push(flat(o.step(&dump_op)));
+    }
+    out
+}
+
+/// Ordered dump of one profile of an open backend (all kinds).
+pub fn dump_profile(backend: &AnyBackend, profile: &str) -> Result<Value, askar_storage::Error> {
+    block_on(async {
+        let mut scan = backend.scan(Some(profile.to_string()), None, None, None, None, None, Some(OrderBy::Id), false).await?;
+        let mut all = vec![];
+        while let Some(rows) = scan.fetch_next().await? { all.extend(rows.iter().map(|e| Rec::from_entry(e).to_json())); }
+        Ok(Value::Array(all))
+    })
+}
+
 /// Classify an oracle mismatch into a stable signature (used to match known findings precisely).
 fn signature(op: &Value, expected: &Value, got: &Value, ctx: &str) -> String {
     let short = |v: &Value| -> String {
